@@ -328,6 +328,14 @@ func cmdCheck(args []string) int {
 			defer wg.Done()
 			defer func() { <-sem }()
 			j.o.Script = j.v.buildScript(j.o)
+			if j.o.Kind == "atomic" {
+				st := "unsat"
+				if j.o.Goal == "false" {
+					st = "not-atomic"
+				}
+				j.o.Res = SolverResult{Status: st, Solver: "lock-section analysis"}
+				return
+			}
 			if j.o.Goal == "false" && j.o.Reach == "true" && (j.o.Kind == "spec" || j.o.Kind == "engine") {
 				j.o.Res = SolverResult{Status: "spec-error", Solver: "none"}
 				return
